@@ -23,6 +23,7 @@ type Graph struct {
 	loc    map[ast.Node]Point
 	idom   []int // immediate dominator per block (-1 for entry / unreachable)
 	parent map[ast.Node]ast.Node
+	flags  map[types.Object]bool // lazily: boolean locals SearchFlags tracks
 }
 
 // Point addresses one atom.
@@ -376,6 +377,8 @@ type Query struct {
 	Avoid func(n ast.Node) bool
 	// Edges: optional edge filter.
 	Edges EdgeFilter
+	// Feasible: report only paths consistent with the values boolean and nil-able locals are known to have (SearchFlags).
+	Feasible bool
 }
 
 // Path is a witness: the atoms at which the search entered each block, ending at the target.
@@ -389,6 +392,14 @@ type Path struct {
 // Search runs the query: is there a path from Q.From to a target/exit that
 // never crosses an Avoid atom?
 func (g *Graph) Search(q Query) Path {
+	if q.Feasible {
+		q.Feasible = false
+		p := g.Search(q)
+		if p.Found && !g.SearchFlags(q) {
+			return Path{}
+		}
+		return p
+	}
 	type state struct{ block, idx int }
 	start := state{0, 0}
 	if q.From != nil {
@@ -550,7 +561,7 @@ func (g *Graph) GuardedBy(n, cond ast.Node, wantTrue bool) bool {
 	// when cond is a nil test of a variable, later nil tests of plain copies of that variable have a known outcome on the
 	// branch being explored (`if err != nil { ret = err; goto out }; ...; out: err2 = ret; if err2 != nil {...}`)
 	corr := g.nilCorrelation(cond, !wantTrue)
-	p := g.Search(Query{
+	q := Query{
 		From:   cond,
 		Target: func(a ast.Node) bool { return a == target },
 		Avoid:  func(a ast.Node) bool { return a == cond },
@@ -565,8 +576,12 @@ func (g *Graph) GuardedBy(n, cond ast.Node, wantTrue bool) bool {
 			}
 			return true
 		},
-	})
-	return !p.Found
+	}
+	if !g.Search(q).Found {
+		return true
+	}
+	// the path found may branch against the known value of a boolean flag
+	return !g.SearchFlags(q)
 }
 
 // nilTestOf: e is `x == nil` / `x != nil` (possibly negated) on an identifier; nonNilWhenTrue tells which outcome means x != nil.
